@@ -128,7 +128,7 @@ PROPS = {
                           'base-point arithmetic). With projections the main loop stores the pre-projection step, so the absolute point is recomputed by the identical Dykstra call; the two initialisers '
                           'store the projected point minus the base, which is projected again when read back: refuted, known finding D24 (the former assumption N4 was false).',
             'not_decided': ['init.run_in_parallel=True (known finding D6/D23)', 'initial points under projections (known finding D24)']},
-    'C04': {'bundles': ['ledger', 'model'], 'level': 'proof',
+    'C04': {'bundles': ['ledger', 'model', 'vecs'], 'level': 'proof',
             'level_text': 'Callers (no floats): a ghost flag "an evaluated point has not been offered to the model yet" is proved false at every loop back-edge, '
                           'break and return of solve_main and of eight Controller methods (except the deliberate NaN exit). Model: change_point / add_new_point / '
                           'add_new_sample / save_point / get_final_results keep the NaN-aware best-so-far relations. (ii) Call-site obligation at every '
